@@ -755,6 +755,30 @@ def delete_metric_mds1(p):
         tr.remove_descriptor(NUM_M1)
 
 
+REUSE_CH = 'reuse.chan'
+
+
+def create_reused_channel(vmd):
+    """A channel handle that exists first under one MDS and - after its removal - under the other one; its metric is added in
+    a transaction of its own (so that the metric's MDS is looked up when the channel already exists)."""
+    def ev(p):
+        _need(p, REUSE_CH, present=False)
+        _need(p, vmd)
+        cls = p.mdib.data_model.get_descriptor_container_class(_names().ChannelDescriptor)
+        with p.mdib.descriptor_transaction() as tr:
+            ch = cls(handle=REUSE_CH, parent_handle=vmd)
+            tr.add_descriptor(ch, state_container=p.mdib.data_model.mk_state_container(ch))
+    return ev
+
+
+def create_reused_metric(p):
+    _need(p, REUSE_CH)
+    _need(p, REUSE_CH + '.m', present=False)
+    with p.mdib.descriptor_transaction() as tr:
+        d = _mk_metric_descriptor(p, REUSE_CH + '.m', REUSE_CH)
+        tr.add_descriptor(d, state_container=p.mdib.data_model.mk_state_container(d))
+
+
 TWO_MDS_EVENTS = [
     ('metric-both-mds(7)', metric_both_mds(7)),
     ('alert-both-mds', alert_both_mds),
@@ -762,4 +786,12 @@ TWO_MDS_EVENTS = [
     ('create-metric-mds1+update-mds0', create_metric_mds1),
     ('delete-metric-mds1', delete_metric_mds1),
 ]
+REUSE_EVENTS = [
+    ('create-reused-channel(mds0)', create_reused_channel('vmd0')),
+    ('create-reused-channel(mds1)', create_reused_channel('vmd_0.mds_1')),
+    ('create-reused-metric', create_reused_metric),
+    ('delete(reused-channel)', delete(REUSE_CH)),
+    ('metric(reused,1)', metric(REUSE_CH + '.m', 1)),
+]
+EVENT_BY_NAME.update(dict(REUSE_EVENTS))
 EVENT_BY_NAME.update(dict(TWO_MDS_EVENTS))
